@@ -47,6 +47,8 @@ class Scheduler:
         self.strategy = swarm.get('strategy', 'random')
         self.p_switch = swarm.get('p_switch', 0.3)
         self.p_line = swarm.get('p_line', 0.1)
+        # per-bytecode points are ~5x denser than per-line points
+        self.p_line_eff = self.p_line / 5 if swarm.get('ultra') else self.p_line
         self.replay = list(decisions) if decisions is not None else None
         self.pos = 0
         self.record: list[int] = []
@@ -103,7 +105,7 @@ class Scheduler:
         if not me_ok:
             return rng.choice(runnable)
         if kind == 'line':
-            if rng.random() < self.p_line:
+            if rng.random() < self.p_line_eff:
                 others = [s for s in runnable if s is not me]
                 return rng.choice(others)
             return me
@@ -228,16 +230,19 @@ def _on_line(code, line):
     return None
 
 
-def install_monitor(codes: list, handler: Callable[[Any, Any, int], None]) -> None:
+def install_monitor(codes: list, handler: Callable[[Any, Any, int], None], instruction: bool = False) -> None:
+    """Local LINE (or, `instruction=True`, per-bytecode INSTRUCTION) events on the given code objects."""
     global _handler, _tool_ready
     mon = sys.monitoring
     if not _tool_ready:
         mon.use_tool_id(_TOOL_ID, 'furax-dst')
         mon.register_callback(_TOOL_ID, mon.events.LINE, _on_line)
+        mon.register_callback(_TOOL_ID, mon.events.INSTRUCTION, _on_line)
         _tool_ready = True
     _handler = handler
+    events = mon.events.INSTRUCTION if instruction else mon.events.LINE
     for code in codes:
-        mon.set_local_events(_TOOL_ID, code, mon.events.LINE)
+        mon.set_local_events(_TOOL_ID, code, events)
         _installed.append(code)
 
 
